@@ -99,7 +99,9 @@ def _path(ctx, params):
         return dict(cls="exception")
     sf._lowest_f = SReal(NINF)     # bookkeeping-only branch (never read), see DESIGN 2
     scale = SReal.of(1)
-    last_arr = None
+    # the array given to the constructor counts as 'the array passed last': the caller may ask at that very array and may
+    # overwrite it afterwards (the wrapper must have kept a copy of it too)
+    last_arr = x0 if params.get("x0_alias", True) else None
     last_grad = None
     trace = []
     for step in range(L):
@@ -257,4 +259,7 @@ def real_cases(params, cand):
     deg = [i for i in range(n) if model.get("lb%d" % i) is not None and model.get("lb%d" % i) == model.get("ub%d" % i)]
     if deg and base["jac"] != "callable":
         cases.append(dict(base, x0=[0.3 + 0.1 * i for i in range(n)], ops=gen, degenerate=deg))
+    if base["jac"] != "callable":
+        # a narrow (not degenerate) side: the difference quotient exists there
+        cases.append(dict(base, x0=[0.3 + 0.1 * i for i in range(n)], ops=gen, narrow=[0]))
     return cases
